@@ -228,6 +228,17 @@ fn read_inputs(tier: Tier) -> Vec<ReadInput> {
     // npy inputs
     let np = Spelling::numpy();
     // three small files, and two of 2 000 eight-byte values (beyond the 512-value / 4 KiB thresholds of bulk paths)
+    {
+        // numpy writes version 2.0 exactly when the header does not fit 16 bits: a dict padded with
+        // blanks to 65 600 bytes
+        let shape = vec![3usize, 2];
+        let mut d = dict_text("<f8", false, &shape, &np);
+        let pad = 65_600 - d.len();
+        d = format!("{}{}", d, " ".repeat(pad));
+        let data: Vec<u8> = (0..6 * 8).map(|b| (b * 5 + 3) as u8 & 0x3f).collect();
+        let bytes = synth(2, &d, &data);
+        v.push(ReadInput { name: format!("npy <f8 v2 with a header of {} bytes ({} bytes)", d.len(), bytes.len()), container: None, bytes: Arc::new(bytes), threads: 1, first_block: 0 });
+    }
     for (descr, size, shape, version) in [("<f8", 8usize, vec![3usize, 4], 1u8), (">i2", 2, vec![7], 2), ("|u1", 1, vec![2, 3, 2], 3), ("<f8", 8, vec![40, 50], 1), (">f8", 8, vec![2000], 2)] {
         let n: usize = shape.iter().product();
         let data: Vec<u8> = (0..n * size).map(|b| (b * 5 + 3) as u8 & 0x3f).collect();
@@ -322,6 +333,21 @@ fn eval_write(si: usize, format: Format, p: usize) -> (u64, Vec<Viol>) {
         if big && !(at < 200 || at % 61 == 0 || at % 4096 <= 2 || at % 4096 >= 4094 || at + 3 >= base.len()) {
             continue;
         }
+        // a fault that happens once and then goes away (a writer that recovers): it was still a failed
+        // write and must surface
+        {
+            evals += 1;
+            let mut w = SeamWriter::short(usize::MAX);
+            w.fail_once_at = Some(at);
+            if let Ok(()) = write_with(x, format, p, &mut w) {
+                let header_end = if format == Format::Npy { 128.min(base.len()) } else { base.iter().position(|b| *b == b'\n').unwrap_or(0) + 1 };
+                viols.push((
+                    format!("C18|lib|write-fault-swallowed|{fname}|{}|once", if at < header_end { "header" } else { "values" }),
+                    format!("spectrum {si} as {fname}: the writer failed once at offset {at} and accepted data afterwards, write returned Ok with {} of {} bytes written", w.out.len(), base.len()),
+                    case(format!("one-off fault {at}")),
+                ));
+            }
+        }
         for zero in [false, true] {
             evals += 1;
             let mut w = SeamWriter::short(usize::MAX);
@@ -397,19 +423,26 @@ fn eval_pipe(c: Container, bytes: &[u8], first: usize, scratch: &Scratch) -> Opt
 
 pub fn run(tier: Tier) -> i32 {
     let mut rep = Report::new("C18", tier, "fault_enumeration");
-    rep.rule = "read side: for each input (a 9-record call set as vcf / vcf.gz / bcf / raw bcf in two BGZF layouts, 1-2 worker threads, through the real detection + reader construction via hook 1; five npy files, two of them with 2 000 values, through Array::read_npy) the chunk schedule is explored by deviation bound: 0 cuts, every single cut offset (= a first chunk of any length), every pair of cuts (thorough), periodic chunks of 1,2,3,7,64,4099,6001,8191 bytes; result must equal the one-chunk result. A read fault is injected at every byte offset (alone, after a cut at f-1, and under each periodic schedule): if the error was delivered the result must be Err. write side: 8 spectra x {text p=0,6,17; npy} through writers accepting 1,2,3,7 bytes per call (identical bytes) and failing / returning Ok(0) at every offset (must be Err). Real pipes with a delayed second write confirm end to end. Non-trivial = a schedule with >=1 deviation.".into();
+    rep.rule = "read side: for each input (a 9-record call set as vcf / vcf.gz / bcf / raw bcf in two BGZF layouts, 1-2 worker threads, through the real detection + reader construction via hook 1; five npy files, two of them with 2 000 values, and a version-2.0 file whose header is 65 600 bytes long (cuts and faults at its ends and every 997th offset), through Array::read_npy) the chunk schedule is explored by deviation bound: 0 cuts, every single cut offset (= a first chunk of any length), every pair of cuts (thorough), periodic chunks of 1,2,3,7,64,4099,6001,8191 bytes; result must equal the one-chunk result. A read fault is injected at every byte offset (alone, after a cut at f-1, and under each periodic schedule): if the error was delivered the result must be Err. write side: 8 spectra x {text p=0,6,17; npy} through writers accepting 1,2,3,7 bytes per call (identical bytes) and failing / returning Ok(0) at every offset (must be Err). Real pipes with a delayed second write confirm end to end. Non-trivial = a schedule with >=1 deviation.".into();
 
     let inputs = read_inputs(tier);
     // baselines
+    // (a valid input that cannot be read in one piece is reported and left out of the exploration)
+    let mut inputs = inputs;
     let mut bases: Vec<CreateResult> = Vec::new();
-    for inp in &inputs {
-        match observe(inp, &Schedule::whole()).0 {
-            Ok(b) => bases.push(b),
-            Err(e) => {
-                eprintln!("ENGINE: baseline read of {} failed: {e}", inp.name);
-                return 2;
+    let mut keep = Vec::new();
+    for inp in inputs.drain(..) {
+        match observe(&inp, &Schedule::whole()).0 {
+            Ok(b) => {
+                bases.push(b);
+                keep.push(inp);
             }
+            Err(e) => rep.violation(format!("C18|lib|one-chunk-read-failed|{}", inp.container.map_or("npy", |c| c.name())), format!("{} delivered in one chunk is not read: {e}", inp.name), case_j(&inp, &Schedule::whole())),
         }
+    }
+    let inputs = keep;
+    if inputs.is_empty() {
+        return rep.finish();
     }
     // all call-set inputs must agree among themselves too (same call data)
     for (i, inp) in inputs.iter().enumerate() {
@@ -426,6 +459,29 @@ pub fn run(tier: Tier) -> i32 {
     for (i, inp) in inputs.iter().enumerate() {
         let len = inp.bytes.len();
         jobs.push((i, Schedule::whole()));
+        // the file with a 65 600-byte header: cuts and faults in its first 200 and last 80 bytes and at
+        // every 997th offset in between (the header is one run of blanks)
+        let coarse = inp.name.contains("with a header of");
+        let offsets: Vec<usize> = (1..len).filter(|c| !coarse || *c < 200 || *c + 80 >= len || c % 997 == 0).collect();
+        if coarse {
+            for &c in &offsets {
+                jobs.push((i, Schedule::cuts(&[c])));
+                n_faults += 1;
+                jobs.push((i, Schedule::whole().with_fault(c)));
+                jobs.push((i, Schedule::cuts(&[c - 1]).with_fault(c)));
+            }
+            for a in 1..16usize {
+                for b in [a + 1, 64, 4096, 8192, 65_536, len - 40] {
+                    if b > a && b < len {
+                        jobs.push((i, Schedule::cuts(&[a, b])));
+                    }
+                }
+            }
+            for k in [7usize, 64, 4099, 6001, 8191] {
+                jobs.push((i, Schedule::periodic(k)));
+            }
+            continue;
+        }
         for c in 1..len {
             jobs.push((i, Schedule::cuts(&[c])));
         }
